@@ -4,5 +4,6 @@ set -e
 cd "$(dirname "$0")/.."
 python3 tools/extract.py
 (cd lean && lake build GrmVerif gvdriver)
-cp /repo/Cargo.lock harness/Cargo.lock
+REPO=$(sed -n 's/^cfgrammar *= *{ *path *= *"\(.*\)\/cfgrammar".*/\1/p' harness/Cargo.toml)
+cp "${REPO:-/repo}/Cargo.lock" harness/Cargo.lock
 (cd harness && CARGO_NET_OFFLINE=true cargo build --release --offline)
